@@ -40,6 +40,7 @@ type FuncInfo struct {
 	Decreases []ast.Expr
 	Flags     map[string]string
 	ReplayText ast.Expr
+	Lemmas    []*ast.FuncLit
 	Loops     map[ast.Stmt]*LoopInfo
 	LoopList  []ast.Stmt
 	Results   []*types.Var
@@ -296,6 +297,10 @@ func (p *Prog) readMarkerPrefix(fi *FuncInfo, info *types.Info, list []ast.Stmt,
 			case "__modifies":
 				fi.HasMod = true
 				fi.Modifies = append(fi.Modifies, call.Args...)
+			case "__lemma":
+				if fl, ok := call.Args[0].(*ast.FuncLit); ok {
+					fi.Lemmas = append(fi.Lemmas, fl)
+				}
 			case "__replaytext":
 				fi.ReplayText = call.Args[0]
 			case "__flag":
